@@ -57,7 +57,7 @@ func init() {
 
 func extraC01(c *Ctx) {
 	p := c.Prog
-	c.Rule("R1.7", "replica bases of plan arithmetic are the spec size, not an observed count", 8)
+	c.Rule("R1.7", "replica bases of plan arithmetic are the spec size, not an observed count", 5)
 	c.Rule("R1.8", "partition-style Deployment: a release starts from partition 0", 1)
 	for _, fn := range p.RepoFuncs() {
 		if !strings.HasPrefix(FuncName(fn), "pkg/controller/batchrelease/control") {
@@ -307,7 +307,7 @@ func extraC08(c *Ctx) {
 
 func extraC09(c *Ctx) {
 	p := c.Prog
-	c.Rule("R9.2b", "every allowed admission response has passed the spec validator, and on Update the update validator", 6)
+	c.Rule("R9.2b", "every allowed admission response has passed the spec validator, and on Update the update validator", 4)
 	c.Rule("R9.1g", "a local len() guard of a cursor-derived index is exact", 1)
 	c.Rule("R9.1h", "every index guarded against len() of the slice it indexes is guarded strictly (repository-wide)", 3)
 	checkLenGuards(c)
@@ -973,7 +973,7 @@ func apiReaching(p *Program) (map[*ssa.Function]bool, func(ssa.CallInstruction) 
 
 func extraC04(c *Ctx) {
 	p := c.Prog
-	c.Rule("R4.7", "no API error is lost inside the route-withdrawal chain", 25)
+	c.Rule("R4.7", "no API error is lost inside the route-withdrawal chain", 12)
 	var roots []*ssa.Function
 	for _, n := range []string{"pkg/trafficrouting.Manager.RestoreGateway", "pkg/trafficrouting.Manager.FinalisingTrafficRouting", "pkg/trafficrouting.Manager.RemoveCanaryService", "pkg/trafficrouting.Manager.RestoreStableService"} {
 		if f := p.Func(n); f != nil {
@@ -1000,7 +1000,7 @@ func extraC14(c *Ctx) {
 
 func extraC03(c *Ctx) {
 	p := c.Prog
-	c.Rule("R3.5", "the step's weight reaches the Ingress annotation unmodified", 7)
+	c.Rule("R3.5", "the step's weight reaches the Ingress annotation unmodified", 5)
 	ens := p.Func("pkg/trafficrouting/network/ingress.ingressController.EnsureRoutes")
 	exe := p.Func("pkg/trafficrouting/network/ingress.ingressController.executeLuaForCanary")
 	if ens == nil || exe == nil {
